@@ -101,7 +101,7 @@ func genTokFlags(t *rapid.T) uint {
 
 func genTokList(t *rapid.T, flags uint) TokListSpec {
 	l := TokListSpec{Flags: flags}
-	n := rapid.IntRange(0, 5).Draw(t, "tl_n")
+	n := []int{0, 1, 1, 2, 2, 3, 3, 4, 5}[uniformIdx(t, "tl_n", 9)]
 	ws := rapid.IntRange(0, 2).Draw(t, "tl_ws") != 0
 	for i := 0; i < n; i++ {
 		var it TokItem
